@@ -436,7 +436,15 @@ if not CONCRETE:
 
         _SMISSING = object()
 
-        class EagerSet(_AbcMutableSet, CrossHairValue):
+        import abc as _abc
+        import builtins as _builtins
+
+        class _SetMeta(_abc.ABCMeta):
+            # inside gtirb the name `set` denotes EagerSet (E9b): isinstance(x, set) must still be true for real sets
+            def __instancecheck__(cls, obj):
+                return type(obj) in (_builtins.set,) or super().__instancecheck__(obj)
+
+        class EagerSet(_AbcMutableSet, CrossHairValue, metaclass=_SetMeta):
             def __init__(self, items=()):
                 self._items = []
                 for x in items:
